@@ -133,9 +133,9 @@ def run(ctx):
                         for expl in (False, True) if ctx.thorough() else (keyed,):
                             jobs.append((ctx.repo, L, B, sets, ndev, keyed, expl, False))
         jobs.append((ctx.repo, L, 2, setsA[1][:1], 1, True, False, True))
-    results = ctx.pmap(worker, jobs)
+    results = ctx.pairs(worker, jobs)
     by = {}
-    for job, r in zip(jobs, results):
+    for job, r in results:
         cfg = r["cfg"]
         nontriv = len(cfg["type_sets"]) >= 2 or cfg["key"] is not None or cfg["L"] % cfg["B"] != 0
         ev.obligation("batches", not r["problems"], tuple(str(v) for v in cfg.values()) if nontriv else None, sample=cfg if ev.obligations % 41 == 0 else None)
